@@ -26,6 +26,7 @@ import sys
 import numpy as np
 from affine import Affine
 
+from .. import gen
 from ..attach import attach, detach_all, calls
 from ..kernel import Monitor, call, hsig, ROOT
 
@@ -124,6 +125,11 @@ def families(rng: random.Random):
     p32, p4 = pp.CRS.from_epsg(32633), pp.CRS.from_epsg(4326)
     fams["CRS"] = [CRS("EPSG:4326"), CRS("epsg:4326"), CRS(4326), CRS(p4), CRS(p4.to_json()), CRS(CRS("EPSG:4326")), CRS("EPSG:3857"), CRS("EPSG:32633"), CRS(p32), CRS("EPSG:32733"),
                    CRS("EPSG:32634"), CRS("EPSG:4269"), CRS("EPSG:3577"), CRS("+proj=utm +zone=33 +datum=WGS84 +units=m +no_defs"), CRS("EPSG:4979") if False else CRS("EPSG:6933")]
+    # a datum-less definition next to the registered CRS it resembles, once with its EPSG guess already looked up (a read-only accessor) and once without
+    la_custom, la_reg, _w = rng.choice(gen.LOOKALIKES[:3])
+    looked_up = CRS(la_custom)
+    looked_up.epsg  # noqa: B018
+    fams["CRS"] += [looked_up, CRS(la_reg), CRS(la_custom)]
     # GCP boxes: shared mapping => equal; rebuilt mapping with equal content => (K2) unequal by identity
     pix = [xy_(px, py) for px in (0, 50, 100) for py in (0, 40, 80)]
     wld = lambda dx=0.0: [xy_(100 + 0.1 * p.x + dx, -30 - 0.1 * p.y) for p in pix]
@@ -346,6 +352,8 @@ def post_transform(args, kw, res, exc, snap):
         lat = np.array([aou.south * 0.7 + aou.north * 0.3, (aou.south + aou.north) / 2, aou.south * 0.25 + aou.north * 0.75])
     else:
         lon, lat = np.array([10.0, 20.0, -30.0]), np.array([5.0, -15.0, 40.0])
+    if _PROBE_HINT is not None:
+        lon, lat = _PROBE_HINT
     to_src = _oracle_transformer("EPSG:4326", src.to_wkt(), True)
     x, y = to_src.transform(lon, lat)
     if not axy and src.axis_info and src.axis_info[0].direction in ("north", "south"):
@@ -356,7 +364,7 @@ def post_transform(args, kw, res, exc, snap):
     _mon.obs["transformer_meta_equal" if ok_meta else "transformer_meta_not_strictly_equal"] += 1
     _mon.obs["transformer_probe_points_finite"] += int(np.isfinite(want).all())
     _mon.check(bool(ok_pts), "transformer-cache", lambda: {"requested": [src.to_string()[:40], dst.to_string()[:40], axy], "got": [res.source_crs.to_string()[:40], res.target_crs.to_string()[:40]],
-               "probe_equal": bool(ok_pts), "meta_equal": bool(ok_meta)}, key="transformer-wrong-crs", cls="always_xy" if axy else "native-axis-order",
+               "probe_equal": bool(ok_pts), "meta_equal": bool(ok_meta)}, key="transformer-wrong-crs", cls=("always_xy" if axy else "native-axis-order") + ("|lookalike" if _PROBE_HINT is not None else ""),
                sig=hsig("tr", src.to_string(), dst.to_string(), axy), sample={"requested": [src.to_string()[:40], dst.to_string()[:40], axy]})
 
 
@@ -415,6 +423,28 @@ def history(mon: Monitor, rng: random.Random, codes, ref, steps: int) -> None:
     mon.obs["crs_cache_size_at_end"] = max(mon.obs["crs_cache_size_at_end"], len(getattr(C, "_crs_cache", {})))
 
 
+_PROBE_HINT = None
+
+
+def lookalikes(mon: Monitor, rng: random.Random, rounds: int) -> None:
+    """Distinct CRSs that resemble each other (datum-less PROJ string next to the registered CRS with the same projection parameters) ask the
+    transformer cache for the same partner, in either order, through fresh and re-used CRS objects."""
+    global _PROBE_HINT
+    from odc.geo.crs import CRS
+
+    try:
+        for _ in range(rounds):
+            custom, reg, win = rng.choice(gen.LOOKALIKES)
+            _PROBE_HINT = (np.array([win[0] * 0.75 + win[2] * 0.25, (win[0] + win[2]) / 2, win[0] * 0.3 + win[2] * 0.7]), np.array([win[1] * 0.7 + win[3] * 0.3, (win[1] + win[3]) / 2, win[1] * 0.25 + win[3] * 0.75]))
+            partner = CRS(rng.choice(["EPSG:4326", "EPSG:4326", "EPSG:3857"]))
+            for spec in rng.sample([custom, reg], 2):
+                c = CRS(spec)
+                # probe points are lon/lat inside the pair's window, taken to whichever CRS is the source by the oracle
+                call(c.transformer_to_crs, partner) if rng.random() < 0.7 else call(partner.transformer_to_crs, c)
+    finally:
+        _PROBE_HINT = None
+
+
 def churn(mon: Monitor, rng: random.Random, codes, n: int) -> None:
     """Construct -> transformer -> drop, many times: any bound on the CRS cache recycles ids under the id-keyed transformer cache."""
     from odc.geo.crs import CRS
@@ -464,6 +494,8 @@ def run(mon: Monitor, tier: str, seed: int, shard: int, nshards: int) -> None:
             history(mon, rng, codes, ref, 400 if q else 2500)
         mon.case = {"kind": "churn"}
         churn(mon, rng, codes[: (60 if q else 300)], 220 if q else 3000)
+        mon.case = {"kind": "lookalikes"}
+        lookalikes(mon, rng, 40 if q else 400)
         mon.case = None
         mon.obs["transformer_hook_calls"] += calls.get("_make_crs_transform", 0)
     finally:
@@ -473,7 +505,7 @@ def run(mon: Monitor, tier: str, seed: int, shard: int, nshards: int) -> None:
         mon.floor(f"{name}.transitive", 3)
         mon.floor(f"{name}.pickle-equal", 10)
         mon.floor(f"{name}.uneq-token", 30)
-    for pt, n in [("CRS.routes", 500), ("history", 300), ("transformer-cache", 100), ("GeoBox.eq-hash", 3), ("BoundingBox.eq-hash", 3), ("XY.eq-hash", 3), ("CRS.eq-hash", 3),
+    for pt, n in [("CRS.routes", 500), ("history", 300), ("transformer-cache", 100), ("transformer-cache|always_xy|lookalike", 20), ("GeoBox.eq-hash", 3), ("BoundingBox.eq-hash", 3), ("XY.eq-hash", 3), ("CRS.eq-hash", 3),
                   ("history|after-colliding-route|wkt", 1), ("history|after-colliding-route|pyproj", 1), ("CRS.routes|wkt~pyproj", 10), ("CRS.routes|int~json", 10)]:
         mon.floor(pt, n)
 
